@@ -445,9 +445,20 @@ class TheJoker:
 
         p = self.prior.pars
 
+        # The data are reduced to plain numbers (days, data.rv.unit) above, so the
+        # prior's parameters must be converted from the units they were declared in
+        import astropy.units as u
+
+        rv_unit = data.rv.unit
+        par_P = xu.to_unit(p["P"], u.day)
+        par_omega = xu.to_unit(p["omega"], u.radian)
+        par_M0 = xu.to_unit(p["M0"], u.radian)
+        par_K = xu.to_unit(p["K"], rv_unit)
+        par_s = xu.to_unit(p["s"], rv_unit)
+
         if "t_peri" not in model.named_vars:
             with model:
-                pm.Deterministic("t_peri", p["P"] * p["M0"] / (2 * np.pi))
+                pm.Deterministic("t_peri", par_P * par_M0 / (2 * np.pi))
 
         if "obs" in model.named_vars:
             return mcmc_init
@@ -455,9 +466,9 @@ class TheJoker:
         with model:
             # Set up the orbit model
             orbit = KeplerianOrbit(
-                period=p["P"],
+                period=par_P,
                 ecc=p["e"],
-                omega=p["omega"],
+                omega=par_omega,
                 t_periastron=model.named_vars["t_peri"],
             )
 
@@ -470,25 +481,28 @@ class TheJoker:
 
         with model:
             v_pars = (
-                [p["v0"]]
-                + [p[name] for name in offset_names]
-                + [p[name] for name in vtrend_names[1:]]
-            )  # skip v0
+                [xu.to_unit(p["v0"], rv_unit)]
+                + [xu.to_unit(p[name], rv_unit) for name in offset_names]
+                + [
+                    xu.to_unit(p[name], rv_unit / u.day**i)
+                    for i, name in enumerate(vtrend_names)
+                    if i > 0  # skip v0
+                ]
+            )
             v_trend_vec = pt.stack(v_pars, axis=0)
             trend = pt.dot(M, v_trend_vec)
 
-            rv_model = orbit.get_radial_velocity(x, K=p["K"]) + trend
+            rv_model = orbit.get_radial_velocity(x, K=par_K) + trend
             pm.Deterministic("model_rv", rv_model)
 
-            err = pt.sqrt(err**2 + p["s"] ** 2)
+            err = pt.sqrt(err**2 + par_s**2)
             pm.Normal("obs", mu=rv_model, sigma=err, observed=y)
 
             pm.Deterministic("logp", model.logp())
 
-            dist = pm.Normal.dist(model.model_rv, data.rv_err.value)
-            lnlike = pm.Deterministic(
-                "ln_likelihood", pm.logp(dist, data.rv.value).sum(axis=-1)
-            )
+            # same (jitter-inflated) uncertainties, in the units of the velocities
+            dist = pm.Normal.dist(model.model_rv, err)
+            lnlike = pm.Deterministic("ln_likelihood", pm.logp(dist, y).sum(axis=-1))
 
             pm.Deterministic("ln_prior", model.logp() - lnlike)
 
